@@ -129,8 +129,10 @@ func init() {
 	Register(&Prop{
 		ID:        "C15",
 		Technique: "bounded exhaustive enumeration of accepted schema texts (generated models + test corpus) x every follow-up first byte x a set of rests; Len() compared with itself on the prefix and on the extended text, verdict/AST compared on the prefix",
-		Rule: "S = canonical renderings of the annotated-model family (every root kind) and the valid schemas of the test corpus; clauses Len<=|S|, S[:Len] same verdict and AST, idempotence; for accepted S: Len(S + LF|CRLF + b + rest) = Len(S) for all 250 non-blank first bytes b other than '/' and '#' x 11 rests; non-trivial = texts with a root value",
-		Bounds:  func(tier string) map[string]any { return map[string]any{"first_bytes": len(firstAll), "rests": len(c15Rests), "family_level": map[string]int{"quick": 2, "thorough": 3}[tier], "quick_first_byte_classes": 28} },
+		Rule:      "S = canonical renderings of the annotated-model family (every root kind) and the valid schemas of the test corpus; clauses Len<=|S|, S[:Len] same verdict and AST, idempotence; for accepted S: Len(S + LF|CRLF + b + rest) = Len(S) for all 250 non-blank first bytes b other than '/' and '#' x 11 rests; non-trivial = texts with a root value",
+		Bounds: func(tier string) map[string]any {
+			return map[string]any{"first_bytes": len(firstAll), "rests": len(c15Rests), "family_level": map[string]int{"quick": 2, "thorough": 3}[tier], "quick_first_byte_classes": 28}
+		},
 		Run: func(w *core.W) {
 			level := 2
 			if w.Thorough() {
